@@ -612,7 +612,12 @@ func strictEqualityComparison(x Value, y Value) bool {
 //	Array       -> []interface{}
 //	Object      -> map[string]interface{}
 func (v Value) Export() (interface{}, error) {
-	return v.export(), nil
+	// export reads properties, and a getter may throw: that is an error for the host, not a panic.
+	var result interface{}
+	err := catchPanic(func() {
+		result = v.export()
+	})
+	return result, err
 }
 
 func (v Value) export() interface{} {
